@@ -28,6 +28,7 @@ def gen(rng, tier, shape=None):
     ll = rng.choice([None, None, 40, 60])
     for f in files:
         f["clean"] = ll is not None and rng.random() < 0.6       # formatter-clean under the project's black options
+        f["bom"] = rng.random() < 0.12                           # the file starts with a UTF-8 byte order mark
     return {"files": files, "flags": flags, "outside": rng.random() < 0.3,      # outside: pytest is started from another directory
             "line_length": ll}
 
@@ -70,6 +71,10 @@ def run_impl(case):
             if f.get("clean"):
                 n = f"test_{chr(97 + i)}.py"
                 files[n] = black.format_str(files[n], mode=black.FileMode(line_length=ll))
+    for i, f in enumerate(case["files"]):
+        if f.get("bom"):
+            n = f"test_{chr(97 + i)}.py"
+            files[n] = "\ufeff" + files[n]
     sub = "started_here" if case.get("outside") else None
     r = impl_pytest.run_session(files, ["--inline-snapshot=" + ",".join(case["flags"])], {}, pyproject=(f"[tool.black]\nline-length = {ll}\n" if ll else ""),
                                 cwd_sub=sub, keep=True)
@@ -110,6 +115,10 @@ def oracle(case, obs):
         old, new = fo["old"], fo["new"]
         if old == new:
             continue
+        if old.startswith("\ufeff"):
+            if not new.startswith("\ufeff"):
+                fails.append(("C03", "bytes_outside_preserved", f"{name}: the byte order mark at the start of the file was dropped"))
+            old, new = old.lstrip("\ufeff"), new.lstrip("\ufeff")      # the mark is not part of the code
         try:
             compile(new, name, "exec")
             tree_new = ast.parse(new)
